@@ -113,5 +113,197 @@ def generate():
     return vlib.write_if_changed(OUTFILE, "\n".join(L))
 
 
+# ---------------------------------------------------------------------------------------------
+# Kernel constants and the cubic spline table (XmpModel/Gen/MixKernelConsts.lean, used by
+# XmpModel/MixKernel.lean): every constant the kernels of src/mix_all.c use.
+# ---------------------------------------------------------------------------------------------
+
+KOUTFILE = os.path.join(vlib.LEAN, "XmpModel", "Gen", "MixKernelConsts.lean")
+
+KMACROS = [  # (lean name, C expression, doc)
+    ("smixShift", "SMIX_SHIFT", "`SMIX_SHIFT` (mixer.h): fractional bits of the sample position"),
+    ("smixMask", "SMIX_MASK", "`SMIX_MASK` (mixer.h)"),
+    ("filterShift", "FILTER_SHIFT", "`FILTER_SHIFT` (mixer.h)"),
+    ("preampBits", "PREAMP_BITS", "`PREAMP_BITS` (mix_all.c)"),
+    ("filterMin", "FILTER_MIN", "`FILTER_MIN` (mix_all.c)"),
+    ("filterMax", "FILTER_MAX", "`FILTER_MAX` (mix_all.c)"),
+    ("splineShift", "SPLINE_SHIFT", "`SPLINE_SHIFT` (mix_all.c)"),
+    ("flag16Bits", "FLAG_16_BITS", "`FLAG_16_BITS` (mixer.c): bit of the kernel table index"),
+    ("flagStereo", "FLAG_STEREO", "`FLAG_STEREO` (mixer.c)"),
+    ("flagStereoOut", "FLAG_STEREOOUT", "`FLAG_STEREOOUT` (mixer.c)"),
+    ("flagFilter", "FLAG_FILTER", "`FLAG_FILTER` (mixer.c)"),
+    ("smixNumVoc", "SMIX_NUMVOC", "`SMIX_NUMVOC` (mixer.h): default number of mixer voices"),
+    ("interpLinear", "XMP_INTERP_LINEAR", "`XMP_INTERP_LINEAR`"),
+    ("interpSpline", "XMP_INTERP_SPLINE", "`XMP_INTERP_SPLINE`"),
+]
+
+
+def object_defines(src):
+    """object-like one-line #defines of a C file (no parameters, no continuation)"""
+    out = []
+    for m in re.finditer(r"^#define[ \t]+([A-Za-z_0-9]+)[ \t]+([^\\\n]+?)[ \t]*$", src, re.M):
+        if "/*" in m.group(2):
+            body = m.group(2).split("/*")[0].strip()
+        else:
+            body = m.group(2)
+        if body:
+            out.append("#define %s %s" % (m.group(1), body))
+    return "\n".join(out)
+
+
+def eval_kernel_macros():
+    mixer_c = open(os.path.join(vlib.REPO, "src", "mixer.c")).read()
+    mix_all = open(os.path.join(vlib.REPO, "src", "mix_all.c")).read()
+    probe = ['#include "common.h"', '#include "mixer.h"', private_defines(mixer_c),
+             "\n".join(l for l in object_defines(mixer_c).splitlines() if re.match(r"#define (FLAG_|FIDX_)", l)),
+             "\n".join(l for l in object_defines(mix_all).splitlines()
+                       if re.match(r"#define (PREAMP_BITS|FILTER_MIN|FILTER_MAX|SPLINE_QUANTBITS|SPLINE_SHIFT) ", l))]
+    for name, expr, _ in KMACROS:
+        probe.append("VERIF_VALUE %s = (%s);" % (name, expr))
+    p = subprocess.run(["gcc", "-E", "-P", "-I" + os.path.join(vlib.REPO, "include"),
+                        "-I" + os.path.join(vlib.REPO, "src"), "-x", "c", "-"],
+                       input="\n".join(probe).encode(), stdout=subprocess.PIPE, stderr=subprocess.PIPE)
+    if p.returncode != 0:
+        raise vlib.InfraError("gen_mixlinear(kernel): preprocessor failed: " + p.stderr.decode()[-1500:])
+    vals = {}
+    for m in re.finditer(r"VERIF_VALUE (\w+) = \((.*?)\);", p.stdout.decode()):
+        expr = m.group(2)
+        if not re.fullmatch(r"[-+*/()<>x0-9a-fA-F \t]*", expr):
+            raise vlib.InfraError("gen_mixlinear(kernel): macro %s did not reduce to a constant: %r" % (m.group(1), expr))
+        expr = re.sub(r"\b0[xX]([0-9a-fA-F]+)\b", lambda h: str(int(h.group(1), 16)), expr)
+        vals[m.group(1)] = int(eval(expr.replace("/", "//"), {"__builtins__": {}}))
+    return vals
+
+
+def spline_tables():
+    src = open(os.path.join(vlib.REPO, "src", "precomp_lut.h")).read()
+    t = {}
+    for m in re.finditer(r"static\s+const\s+int16\s+cubic_spline_lut(\d)\[(\d+)\]\s*=\s*\{(.*?)\};", src, re.S):
+        vals = [int(x) for x in re.findall(r"-?\d+", m.group(3))]
+        if len(vals) != int(m.group(2)):
+            raise vlib.InfraError("gen_mixlinear(kernel): cubic_spline_lut%s has %d entries, declared %s" % (m.group(1), len(vals), m.group(2)))
+        t[int(m.group(1))] = vals
+    if sorted(t) != [0, 1, 2, 3] or len({len(v) for v in t.values()}) != 1:
+        raise vlib.InfraError("gen_mixlinear(kernel): the four cubic spline tables were not recognised in precomp_lut.h")
+    return t
+
+
+def generate_kernel():
+    vals = eval_kernel_macros()
+    mix_all = open(os.path.join(vlib.REPO, "src", "mix_all.c")).read()
+    t = spline_tables()
+    # code shapes of the interpolation macros: the literal shifts
+    shapes = [
+        ("splineFracShift", shape(mix_all, r"#define SPLINE_16BIT\(smp_in, off\) do \{ \\\n\s*int f = frac >> (\d+);"),
+         "`int f = frac >> N` of SPLINE_16BIT / SPLINE_8BIT (mix_all.c): index into the spline tables"),
+        ("spline8Shift", shape(mix_all, r"#define SPLINE_8BIT(?:.*\\\n)+?.*>> \(SPLINE_SHIFT - (\d+)\);"),
+         "N of `>> (SPLINE_SHIFT - N)` in SPLINE_8BIT (mix_all.c)"),
+        ("nearest8Shift", shape(mix_all, r"#define NEAREST_8BIT(?:.*\\\n)+?.*\(int16\)sptr\[pos \+ \(off\)\] << (\d+)\)"),
+         "N of `(int16)sptr[pos + (off)] << N` in NEAREST_8BIT / LINEAR_8BIT (mix_all.c)"),
+        ("rampLevelShift", shape(mix_all, r"MIX_OUT\(\(smp_in\), old_vl >> (\d+)\)"),
+         "N of `old_vl >> N` in MIX_MONO_AC / MIX_STEREO_AC (mix_all.c)"),
+    ]
+    n = len(t[0])
+    L = ["/-! GENERATED by tools/gen_mixlinear.py from src/mix_all.c, src/mixer.c, src/mixer.h, src/precomp_lut.h of the",
+         "libxmp working tree — do not edit. -/",
+         "namespace Xmp.Gen.MixKernelConsts", ""]
+    for name, _, doc in KMACROS:
+        v = vals[name]
+        L.append("/-- %s -/" % doc)
+        L.append("def %s : Nat := %d" % (name, v) if v >= 0 else "def %s : Int := (%d)" % (name, v))
+    L.append("")
+    for name, v, doc in shapes:
+        L.append("/-- %s (recognised from the code shape; `none` = not recognised) -/" % doc)
+        L.append("def %s : Option Nat := %s" % (name, "none" if v is None else "some %d" % v))
+    L.append("")
+    L.append("/-- number of entries of each `cubic_spline_lutN[]` (precomp_lut.h) -/")
+    L.append("def splineLutLen : Nat := %d" % n)
+    rows = ["(%d, %d, %d, %d)" % (t[0][f], t[1][f], t[2][f], t[3][f]) for f in range(n)]
+    CH = 32     # the list literal is written in chunks (one long literal exhausts the elaborator's budget)
+    nch = (n + CH - 1) // CH
+    for c in range(nch):
+        L.append("def splineRowsChunk%d : List (Int × Int × Int × Int) := [" % c)
+        L.append("  " + ",\n  ".join(rows[c * CH:(c + 1) * CH]))
+        L.append("]")
+    L.append("/-- row `f` = `(cubic_spline_lut0[f], cubic_spline_lut1[f], cubic_spline_lut2[f], cubic_spline_lut3[f])` -/")
+    L.append("def splineRows : List (Int × Int × Int × Int) :=")
+    L.append("  " + " ++ ".join("splineRowsChunk%d" % c for c in range(nch)))
+    L += ["", "end Xmp.Gen.MixKernelConsts", ""]
+    return vlib.write_if_changed(KOUTFILE, "\n".join(L))
+
+
+# ---------------------------------------------------------------------------------------------
+# Paula simulator constants and the BLEP table (XmpModel/Gen/MixKernelPaulaConsts.lean)
+# ---------------------------------------------------------------------------------------------
+
+POUTFILE = os.path.join(vlib.LEAN, "XmpModel", "Gen", "MixKernelPaulaConsts.lean")
+
+PMACROS = [
+    ("paulaHz", "PAULA_HZ", "`PAULA_HZ` (paula.h)"),
+    ("minimumInterval", "MINIMUM_INTERVAL", "`MINIMUM_INTERVAL` (paula.h)"),
+    ("blepScale", "BLEP_SCALE", "`BLEP_SCALE` (paula.h)"),
+    ("blepSize", "BLEP_SIZE", "`BLEP_SIZE` (paula.h)"),
+    ("maxBleps", "MAX_BLEPS", "`MAX_BLEPS` (paula.h)"),
+]
+
+
+def generate_paula():
+    probe = ['#include "common.h"', '#include "mixer.h"', '#include "paula.h"']
+    for name, expr, _ in PMACROS:
+        probe.append("VERIF_VALUE %s = (%s);" % (name, expr))
+    p = subprocess.run(["gcc", "-E", "-P", "-DLIBXMP_PAULA_SIMULATOR", "-I" + os.path.join(vlib.REPO, "include"),
+                        "-I" + os.path.join(vlib.REPO, "src"), "-x", "c", "-"],
+                       input="\n".join(probe).encode(), stdout=subprocess.PIPE, stderr=subprocess.PIPE)
+    if p.returncode != 0:
+        raise vlib.InfraError("gen_mixlinear(paula): preprocessor failed: " + p.stderr.decode()[-1500:])
+    vals = {}
+    for m in re.finditer(r"VERIF_VALUE (\w+) = \((.*?)\);", p.stdout.decode()):
+        expr = m.group(2)
+        if not re.fullmatch(r"[-+*/()<>x0-9a-fA-F \t]*", expr):
+            raise vlib.InfraError("gen_mixlinear(paula): macro %s did not reduce to a constant: %r" % (m.group(1), expr))
+        vals[m.group(1)] = int(eval(expr.replace("/", "//"), {"__builtins__": {}}))
+    src = open(os.path.join(vlib.REPO, "src", "precomp_blep.h")).read()
+    m = re.search(r"winsinc_integral\[(\d+)\]\[(\d+)\]\s*=\s*\{(.*)\};", src, re.S)
+    if not m:
+        raise vlib.InfraError("gen_mixlinear(paula): winsinc_integral not recognised in precomp_blep.h")
+    ntab, nent = int(m.group(1)), int(m.group(2))
+    tabs = [[int(x) for x in re.findall(r"-?\d+", t)] for t in re.findall(r"\{([^{}]*)\}", m.group(3))]
+    if len(tabs) != ntab or ntab != 2 or any(len(t) != nent for t in tabs):
+        raise vlib.InfraError("gen_mixlinear(paula): winsinc_integral has an unexpected shape")
+    mp = open(os.path.join(vlib.REPO, "src", "mix_paula.c")).read()
+    shapes = [
+        ("paulaLevelShift", shape(mp, r"vl <<= (\d+)"), "N of `vl <<= N` / `vr <<= N` in VAR_PAULA (mix_paula.c)"),
+    ]
+    L = ["/-! GENERATED by tools/gen_mixlinear.py from src/paula.h, src/precomp_blep.h, src/mix_paula.c of the libxmp working",
+         "tree — do not edit. -/",
+         "namespace Xmp.Gen.MixKernelPaulaConsts", ""]
+    for name, _, doc in PMACROS:
+        L.append("/-- %s -/" % doc)
+        L.append("def %s : Nat := %d" % (name, vals[name]))
+    for name, v, doc in shapes:
+        L.append("/-- %s (recognised from the code shape; `none` = not recognised) -/" % doc)
+        L.append("def %s : Option Nat := %s" % (name, "none" if v is None else "some %d" % v))
+    L.append("")
+    rows = ["(%d, %d)" % (tabs[0][i], tabs[1][i]) for i in range(nent)]
+    CH = 64
+    nch = (nent + CH - 1) // CH
+    for c in range(nch):
+        L.append("def blepRowsChunk%d : List (Int × Int) := [" % c)
+        L.append("  " + ",\n  ".join(", ".join(rows[c * CH + k:c * CH + k + 8]) for k in range(0, CH, 8) if rows[c * CH + k:c * CH + k + 8]))
+        L.append("]")
+    L.append("/-- row `age` = `(winsinc_integral[0][age], winsinc_integral[1][age])` (A500 filter off, on) -/")
+    L.append("def blepRows : List (Int × Int) :=")
+    L.append("  " + " ++ ".join("blepRowsChunk%d" % c for c in range(nch)))
+    L += ["", "end Xmp.Gen.MixKernelPaulaConsts", ""]
+    return vlib.write_if_changed(POUTFILE, "\n".join(L))
+
+
+def generate_all():
+    a = generate()
+    b = generate_kernel()
+    c = generate_paula()
+    return a or b or c
+
+
 if __name__ == "__main__":
-    print("changed" if generate() else "unchanged")
+    print("changed" if generate_all() else "unchanged")
